@@ -168,6 +168,10 @@ class Ref:
             rxl = (DEF_RX + self.cfg.get('rx%d' % k, []))[:MAX_LIST]
             self.send(k, 126464, requester, [0] + [b for q in txl for b in le(q, 3)], True)
             self.send(k, 126464, requester, [1] + [b for q in rxl for b in le(q, 3)], True)
+        elif p == 126998 and self.cfg.get('noconf'):
+            # no configuration information at all: like any PGN the node cannot supply
+            if addressed:
+                self.send(k, 59392, requester, [1, 255, 255, 255, 255] + le(p, 3), False)
         elif p in (126996, 126998):
             self.send_info(k, p)
         else:
@@ -466,6 +470,21 @@ def gen(seed, tier):
                 ops += [req(r, 50, src0, p), req(r, 50, 255, p), 'P']
             ops += ['T 5000', 'P']
             cases.append(line + ' | ' + ' ; '.join(ops))
+    # 6b. no configuration information at all (the application cleared the three strings): a request for 126998 is refused to the
+    #     requester, a broadcast request draws nothing; every device count, inside / outside claim windows, blocked bus
+    for ndev in range(1, 10):
+        for _ in range(1 if not thorough else 4):
+            line, _, src0, mode = cfg_line(r, ndev=ndev)
+            own = [(src0 + i) & 255 for i in range(ndev)]
+            ops = []
+            for k in range(ndev):
+                ops += [req(r, r.choice(requesters), own[k], 126998, ln=r.choice([3, 3, 8])), 'P']
+            ops += [req(r, 51, 255, 126998), 'P', req(r, 51, 255, 126996), req(r, 52, own[0], 126996), 'P']
+            k = r.randrange(ndev)
+            ops += ['C %d' % k, 'T %d' % r.choice([0, 100, 249]), req(r, 50, own[k], 126998), req(r, 50, 255, 126998), 'P', 'T 252', req(r, 50, own[k], 126998), 'P']
+            if r.random() < 0.5:
+                ops += ['A ' + '0' * 60, req(r, 50, own[k], 126998), req(r, 50, 255, 126998), 'P', 'A', 'T 3000', 'P', 'P']
+            cases.append(line + ' noconf=1 | ' + ' ; '.join(ops))
     # 7. sweep of the requested PGN: every value of the low 16 bits and every value of the high 8 bits occurs (thorough tier);
     #    the quick tier samples the same sequence
     ks = range(0, 65536) if thorough else r.sample(range(0, 65536), 600)
@@ -493,7 +512,7 @@ def check(run, replay=None):
                        'declining; application transmit / receive lists up to 90 entries, i.e. beyond the 74 that fit) and a history of ISO requests (PGN 59904, DLC 0..8) from requesters 0, 50, 77, 251, 254, 255 and '
                        'own addresses, addressed to every device and broadcast, over requested PGN classes (the four mandatory, system, default lists, proprietary ranges, handler list, broadcast-ignore list, 0, '
                        '0xFFFFFF, neighbours of the mandatory PGNs, random 24-bit); requests 0..251+ ms after StartAddressClaim; driver refusing random frames with room in the queue; blocked bus with small '
-                       'queues followed by the retry instants -1 / +1 ms; devices at addresses 252, 253.  Requested-PGN sweep: p = ((k*251 mod 256) << 16) | k, k = 0..65535, covers every value of the low 16 bits and '
+                       'queues followed by the retry instants -1 / +1 ms; devices at addresses 252, 253; nodes without any configuration information (noconf=1), 1..9 devices.  Requested-PGN sweep: p = ((k*251 mod 256) << 16) | k, k = 0..65535, covers every value of the low 16 bits and '
                        'every value of the high 8 bits (thorough: all k; quick: 600 sampled k) - the full 2^24 enumeration is replaced by this stride because the extracted model processes lists in O(n); the theorems '
                        'quantify over all 2^24 values.  Model and C++ (both scheduler builds) are compared on every driver frame, handler call and the internal state; the oracle is an independent reference machine '
                        '(claim windows, retry timers, FIFO, gate) with the answer layouts from the published PGN definitions.  non-trivial = case in which the node sent something or the handler was called')
